@@ -19,8 +19,24 @@ EXHAUSTIVE = {"quick": False, "thorough": False}
 SO = {"threads": 1, "time_limit": 30}
 
 
+WIDTH_SHAPES = [gen.cyc_figure8, gen.cyc_selfloop, gen.cyc_long_chord, gen.cyc_two_sccs_parallel, gen.cyc_nested, gen.cyc_bridge_return,
+                gen.cyc_multi_source, gen.cyc_sccs_series]
+
+
 def gen_cases(tier, seed):
     cases = []
+    # width only (no MILP): ALL ignore subsets of size <= 3 on a corpus of cyclic shapes and on random graphs
+    for i, f in enumerate(WIDTH_SHAPES):
+        for j in range(2):
+            nodes, edges = f(gen.rng_for("C09w", i, j))
+            cases.append({"kind": "width", "spec": gen.spec(nodes, edges), "maxsub": 3})
+    # parallel inter-SCC edge bundles (3 edges between the same pair of SCCs) and a self-loop whose neighbours can all be ignored
+    cases.append({"kind": "width", "maxsub": 3, "spec": gen.spec(["s", "a", "b", "c", "d", "t"], [("s", "a"), ("a", "b"), ("b", "a"), ("a", "c"), ("b", "c"), ("b", "d"), ("c", "d"), ("d", "c"), ("d", "t")])})
+    cases.append({"kind": "width", "maxsub": 4, "spec": gen.spec(["s", "a", "t", "u"], [("s", "a"), ("a", "a"), ("a", "t"), ("s", "u"), ("u", "t")])})
+    for i in range(30 if tier == "quick" else 400):
+        rng = gen.rng_for("C09wr", seed, i)
+        nodes, edges = gen.cyc_any(rng, 9) if rng.random() < 0.7 else gen.dag_any(rng, 9)
+        cases.append({"kind": "width", "spec": gen.spec(nodes, edges), "maxsub": 2 if len(edges) > 7 else 3})
     n = 500 if tier == "quick" else 5000
     for i in range(n):
         rng = gen.rng_for("C09", seed, i)
@@ -48,11 +64,15 @@ def gen_cases(tier, seed):
                 P = gen.all_paths(nodes, edges)
                 cons = gen.rand_subpath_constraints(rng, P, n=rng.randint(1, 2)) if P else []
             cov = rng.choice([1.0, 1.0, 0.5])
-        cases.append({"spec": gen.spec(nodes, edges), "cyc": cyc, "node": node, "ignore": gen.jl(ign), "starts": starts, "ends": ends, "cons": gen.jl(cons), "cov": cov})
+        covlen = None; lengths = []
+        if cons and not cyc and rng.random() < 0.35:
+            covlen = rng.choice([0.4, 0.6, 1.0]); cov = 1.0
+            lengths = [[u, v, rng.choice([1, 2, 5])] for (u, v) in edges if rng.random() < 0.7]
+        cases.append({"covlen": covlen, "lengths": lengths, "spec": gen.spec(nodes, edges, eattr={(u, v): {"len": l} for u, v, l in lengths}), "cyc": cyc, "node": node, "ignore": gen.jl(ign), "starts": starts, "ends": ends, "cons": gen.jl(cons), "cov": cov})
     return cases
 
 
-def reference(G, cyc, node, ign, starts, ends, cons, cov):
+def reference(G, cyc, node, ign, starts, ends, cons, cov, covlen=None, lengths=None):
     S = list(dict.fromkeys(ref.sources(G) + list(starts))); T = list(dict.fromkeys(ref.sinks(G) + list(ends)))
     if not cyc:
         P = ref.st_paths(G, S, T)
@@ -60,7 +80,11 @@ def reference(G, cyc, node, ign, starts, ends, cons, cov):
             cols = [collections.Counter(p) for p in P]; required = [v for v in G.nodes if v not in ign]
         else:
             cols = [collections.Counter(ref.path_edges(p)) for p in P]; required = [e for e in G.edges if e not in ign]
-        cc = [[i for i, c in enumerate(cols) if sum(1 for e in k if c.get(e, 0)) >= len(k) * cov - 1e-12] for k in cons]
+        if covlen is None:
+            cc = [[i for i, c in enumerate(cols) if sum(1 for e in k if c.get(e, 0)) >= len(k) * cov - 1e-12] for k in cons]
+        else:
+            L = lengths or {}
+            cc = [[i for i, c in enumerate(cols) if sum(L.get(e, 1) for e in k if c.get(e, 0)) >= sum(L.get(e, 1) for e in k) * covlen - 1e-12] for k in cons]
         return ref.cover_min(cols, required, cc)
     comp, paths = ref.walk_cover_paths(G, S, T)
     cols = []
@@ -84,15 +108,56 @@ def reference(G, cyc, node, ign, starts, ends, cons, cov):
     return ref.cover_min(cols, required, cc)
 
 
+def run_width(case):
+    """get_width for every small ignore subset against the SCC-multigraph set-cover reference"""
+    import itertools
+    viol = []; obs = collections.Counter()
+    G = gen.build(case["spec"])
+    cyc = not ref.is_dag(G)
+    r = M.safe_call(fp.stDiGraph, G)
+    if r[0] != "ok":
+        return {"viol": [], "obs": {}, "nontrivial": False}
+    st = r[1]; sd = None if cyc else fp.stDAG(G)
+    E = list(G.edges)
+    for size in range(0, case["maxsub"] + 1):
+        for ign in itertools.combinations(E, size):
+            if len(ign) == len(E):
+                continue
+            try:
+                w = ref.walk_cover_width(G, ignore=set(ign))
+            except ref.RefTimeout:
+                continue
+            for obj, name in ((st, "Cycles" if cyc else "stDiGraph-on-DAG"), (sd, "")):
+                if obj is None:
+                    continue
+                g = M.safe_call(obj.get_width, edges_to_ignore=list(obj.source_sink_edges) + list(ign))
+                obs["c09.width_compared"] += 1
+                if g[0] != "ok":
+                    viol.append({"sig": f"C09/get_width{name}/raises/{g[1]}/ignore", "msg": f"{g[2]}; edges {E} ignore {ign}"})
+                elif g[1] != w:
+                    viol.append({"sig": f"C09/get_width{name}/differs-from-minimum-cover" + ("/ignore" if ign else ""), "msg": f"get_width = {g[1]}, reference minimum cover {w}; edges {E} ignore {list(ign)}"})
+            if len(viol) > 3:
+                break
+    seen = set(); out = []
+    for v in viol:
+        if v["sig"] not in seen:
+            seen.add(v["sig"]); out.append(v)
+    return {"viol": out[:4], "obs": dict(obs), "nontrivial": cyc, "keys": [hashlib.sha1(repr(E).encode()).hexdigest()[:14]] if cyc else [],
+            "sample": {"kind": "width", "edges": E, "ignore_subsets_up_to": case["maxsub"]}}
+
+
 def run_case(case):
+    if case.get("kind") == "width":
+        return run_width(case)
     viol = []; obs = collections.Counter()
     G = gen.build(case["spec"]); cyc = case["cyc"]; node = case["node"]
     ign = [models._elem(e) for e in case["ignore"]]
     cons = [[models._elem(e) for e in c] for c in case["cons"]]
     starts, ends = case["starts"], case["ends"]
-    desc = f"{'cyclic' if cyc else 'DAG'} cover={'node' if node else 'edge'} edges={list(G.edges)} ignore={ign} starts={starts} ends={ends} cons={cons} cov={case['cov']}"
+    desc = f"{'cyclic' if cyc else 'DAG'} cover={'node' if node else 'edge'} edges={list(G.edges)} ignore={ign} starts={starts} ends={ends} cons={cons} cov={case['cov']} covlen={case.get('covlen')} lengths={case.get('lengths')}"
     try:
-        w = reference(G, cyc, node, set(ign), starts, ends, cons, case["cov"])
+        covlen = case.get("covlen"); lengths = {(u, v): l for u, v, l in case.get("lengths") or []}
+        w = reference(G, cyc, node, set(ign), starts, ends, cons, case["cov"], covlen, lengths)
     except ref.RefTimeout:
         return {"viol": [], "obs": {"c09.ref_too_big": 1}, "nontrivial": False}
     if w is None:
@@ -112,7 +177,10 @@ def run_case(case):
         kw["additional_ends"] = ends
     if cons:
         kw["subset_constraints" if cyc else "subpath_constraints"] = case["cons"]
-        kw["subset_constraints_coverage" if cyc else "subpath_constraints_coverage"] = case["cov"]
+        if case.get("covlen"):
+            kw["subpath_constraints_coverage_length"] = case["covlen"]; kw["length_attr"] = "len"
+        else:
+            kw["subset_constraints_coverage" if cyc else "subpath_constraints_coverage"] = case["cov"]
     M.ROUTES.install(); M.ROUTES.drain(); M.TRACE.install(); M.TRACE.reset()
     res = models.run({"cls": "MinPathCover" + kind, "spec": case["spec"], "kw": kw}, solver_options=SO)
     timed_out = any(t.get("status") == "kTimeLimit" for t in M.TRACE.trace)
@@ -138,7 +206,11 @@ def run_case(case):
                 viol.append({"sig": f"C09/MinPathCover{kind}/" + ("not-minimum" if len(routes) > w else "below-reference") + tagstr, "msg": f"{len(routes)} routes, reference minimum {w}; {desc}"})
             for c in cons:
                 cs = set(c)
-                if not any(sum(1 for e in cs if e in set(zip(r, r[1:]))) >= len(cs) * case["cov"] - 1e-12 for r in routes):
+                if case.get("covlen"):
+                    okc = any(sum(lengths.get(e, 1) for e in c if e in set(zip(r, r[1:]))) >= sum(lengths.get(e, 1) for e in c) * case["covlen"] - 1e-12 for r in routes)
+                else:
+                    okc = any(sum(1 for e in cs if e in set(zip(r, r[1:]))) >= len(cs) * case["cov"] - 1e-12 for r in routes)
+                if not okc:
                     viol.append({"sig": f"C09/MinPathCover{kind}/constraint-not-covered{tagstr}", "msg": f"{c}; routes {routes}; {desc}"})
     # ---- width of the s-t graph classes (edge cover only: the classes define width over edges)
     if not node and not cons:
